@@ -497,14 +497,15 @@ MT_TRUSTED = ["nom semantics table lib/mir/textlayer.py (take, tag, take_until, 
 MT_N = {"quick": 32, "thorough": 48}
 
 
-def mt_gap_no_panic(res, cfgs, seed, N=24, timeout_s=600):
-    """the sentence parser on lines far longer than the fully symbolic bound: N symbolic bytes with a run of up to 60000 copies of one
-    payload character inserted at a symbolic position (16-bit positions) - no panic edge is reachable.  (The grammar / checksum
-    miters do not finish on this model within 25 min and are not claimed on it.)"""
+def mt_gap_no_panic(res, cfgs, seed, N=24, timeout_s=600, width=16, queries=("q_no_panic",)):
+    """the sentence parser on lines far longer than the fully symbolic bound: N symbolic bytes with a run of one payload character
+    inserted at a symbolic position.  With 16-bit positions (runs up to 60000) the panic-edge query takes seconds but the grammar
+    miters do not finish in 25 min; with 12-bit positions (runs up to 3840) and N = 20 the two grammar miters take 11-12 min each
+    (thorough tier of C08)."""
     import mt, msq
     from mir import textlayer as T
     for c in cfgs:
-        with T.width(16):
+        with T.width(width):
             try:
                 base = msq.relation(c)
                 rel = mt.build(c, N, mir_path=base.mir_path, line=T.GapLine(N))
@@ -512,12 +513,13 @@ def mt_gap_no_panic(res, cfgs, seed, N=24, timeout_s=600):
                 res.inconclusive.append("engine M could not encode the sentence parser on the long-line model [%s]: %s" % (c, str(e)[:400]))
                 continue
             ref = mt.Ref(rel.line)
-            res.extra.setdefault("text_layer_long_lines", {})[c] = dict(rel.stats, model="N=%d symbolic bytes + a run of <= 60000 copies of one payload character" % N)
+            res.extra.setdefault("text_layer_long_lines", {})["%s/w%d" % (c, width)] = dict(rel.stats, model="N=%d symbolic bytes + a run of <= %d copies of one payload character" % (N, rel.line.gmax))
             res.states += rel.stats["blocks_executed"]
             res.transitions += rel.stats["paths"]
             mt.translator_validation(res, rel, ref, seed)
             cx = mt.Ctx(res, rel, ref)
-            mt.q_no_panic(cx)
+            for q in queries:
+                getattr(mt, q)(cx)
             mt.run_queries(cx, timeout_s=timeout_s)
 
 
@@ -590,10 +592,13 @@ def c08(res, tier, seed):
             mt.q_shapes(cx)
             mt.q_postconditions(cx)
             mt.run_queries(cx, timeout_s=4500)
+        # long lines: 20 symbolic bytes + a run of up to 3840 copies of one payload character (both directions of the grammar miter)
+        mt_gap_no_panic(res, ("std",), seed, N=20, timeout_s=4500, width=12, queries=("q_shapes",))
     res.assumptions += ["lines with a '*' inside the address / channel / payload fields are judged by C02 (first-'*' rule), C08's two queries are neutral on them"]
     meta = mt_meta(tier)
     if tier == "thorough":
         meta["bounds"]["line_bytes_std"] = "additionally every byte string of length 0..=%d (the NMEA 0183 maximum sentence length) in the std build" % MT_N_NMEA
+        meta["bounds"]["long_lines_std"] = "additionally lines of 20 symbolic bytes with a run of 0..=3840 copies of one payload character inserted at any position"
     return meta
 
 
